@@ -65,7 +65,7 @@ def graphs(chk, tier, salt):
     chk.add_tlc(r)
     # ... and types with up to four properties of their own and mostly acyclic inheritance (objects of 13 and more
     # properties after inheriting)
-    r2 = tlc_ok(tlc("JSightTypes", "Types_sim.cfg", consts={"N": "4", "MaxProps": "6"}, simulate=n // 2, depth=6,
+    r2 = tlc_ok(tlc("JSightTypes", "Types_sim.cfg", consts={"N": "4", "MaxProps": "9"}, simulate=n // 2, depth=6,
                     tlc_seed=seed() * 19 + salt, workers=4, timeout=900), "JSightTypes (more properties)")
     chk.add_tlc(r2)
     seen, res = set(), []
